@@ -245,17 +245,17 @@ fn exhaustive_rev(tier: Tier, part: u32, parts: u32) -> Box<dyn Iterator<Item = 
 pub fn def(tier: Tier) -> PropertyDef {
 	let mut checks: Vec<Box<dyn SubCheck>> = Vec::new();
 	for i in 0..2 {
-		checks.push(pt(&format!("cross_{i}"), tier.pick(40000, 200000), cross_strategy(tier.pick(120, 600)), run_cross));
+		checks.push(pt(&format!("cross_{i}"), tier.pick(40000, 1000000), cross_strategy(tier.pick(120, 600)), run_cross));
 	}
 	let parts = 4u32;
 	for part in 0..parts {
 		checks.push(enumerate(&format!("reversal_exhaustive_{part}"), move |tier, _| exhaustive_rev(tier, part, parts), run_rev));
 	}
 	for i in 0..4 {
-		checks.push(pt(&format!("reversal_{i}"), tier.pick(15000, 60000), rev_strategy(tier.pick(600, 1500)), run_rev));
+		checks.push(pt(&format!("reversal_{i}"), tier.pick(15000, 300000), rev_strategy(tier.pick(600, 1500)), run_rev));
 	}
 	for i in 0..4 {
-		checks.push(pt(&format!("reversal_long_{i}"), tier.pick(16, 24), long_rev_strategy(tier.pick(3000, 70000)), run_rev));
+		checks.push(pt(&format!("reversal_long_{i}"), tier.pick(16, 100), long_rev_strategy(tier.pick(3000, 70000)), run_rev));
 	}
 	PropertyDef {
 		id: "C14",
